@@ -794,7 +794,7 @@ func TestVerif(t *testing.T) {
 		c.Done(sc.shape()+" "+plan.String(), nontrivial)
 	}
 
-	n0 := r.N(900, 400_000)
+	n0 := r.N(15000, 400_000)
 	for i := 0; i < n0; i++ {
 		idx := baseD0 + i
 		r.Run(idx, fmt.Sprintf("d0-%d", i), func(c *rep.Case) {
@@ -802,7 +802,7 @@ func TestVerif(t *testing.T) {
 			one(c, p, genScenario(p), stressPlan(p))
 		})
 	}
-	reps1 := r.N(3, 150)
+	reps1 := r.N(12, 150)
 	k := 0
 	for _, site := range env.sites {
 		for occ := 1; occ <= 4; occ++ {
